@@ -16,6 +16,7 @@ type Scanner struct {
 
 // NewScanner returns a new instance of Scanner.
 func NewScanner(r io.Reader) *Scanner {
+	verifEv("ns", 0, 0, 0)
 	return &Scanner{r: &reader{r: bufio.NewReader(r)}}
 }
 
@@ -405,6 +406,7 @@ func (s *bufScanner) scanFunc(scan func() (Token, Pos, string)) (tok Token, pos 
 	buf := &s.buf[s.i]
 	buf.tok, buf.pos, buf.lit = scan()
 	verifEv("ts", s.n, s.i, 0)
+	verifEv("tp", buf.pos.Line, buf.pos.Char, rune(buf.tok))
 
 	return s.curr()
 }
